@@ -267,8 +267,9 @@ class InterpND(object):
             # Input is a list or tuple of separate points.
             x = np.atleast_2d(x)
 
-        # cache latest evaluation point for gradient method's use later
-        self._xi = x
+        # cache latest evaluation point for gradient method's use later (a copy, so that a caller who
+        # changes x in place afterwards does not change what the cached gradient belongs to)
+        self._xi = x.copy()
 
         xnew = self._interpolate(x)
 
@@ -493,9 +494,11 @@ class InterpND(object):
         ndarray
             Vector of gradients of the interpolated values with respect to each value in xi.
         """
-        if (self._xi is None) or (not np.array_equal(xi, self._xi)):
-            # If inputs have changed since last computation, then re-interpolate.
-            self.interpolate(xi)
+        if (self._xi is None) or (not self._compute_d_dx) or (not np.array_equal(xi, self._xi)):
+            # If inputs have changed since last computation, or the last computation did not request
+            # the derivatives (akima only propagates sub-table derivatives on request), then
+            # re-interpolate.
+            self.interpolate(xi, compute_derivative=True)
 
         return self._gradient().reshape(np.asarray(xi).shape)
 
